@@ -12,6 +12,7 @@ import DafRel.Lemmas.ConformSound
 
 namespace DafRel
 
+
 /-! ### The shape of commutation reports -/
 
 /-- The reported second operation is the existing one, or `Identity` (a projection swallowing a
@@ -518,7 +519,7 @@ theorem BTok.of_finish {σ : Leaves} {o : UOp} {t t' : Rel} (h : FinishOK σ o t
    fun h => (by cases h), fun h => (by cases h)⟩
 
 theorem prefTargetsGood_of_iter (σ : Leaves) (pref : Engine) (hpk : pref.kind = .iter) :
-    (t : Rel) → t.prefTargetsGood σ pref
+    (t : Rel) → t.prefTargetsGood NodeInv.triv σ pref
   | .unary _ t _ => prefTargetsGood_of_iter σ pref hpk t
   | .transfer _ _ t => ⟨fun _ hq => (by rw [hpk] at hq; cases hq), prefTargetsGood_of_iter σ pref hpk t⟩
   | .leaf .. => trivial
@@ -531,7 +532,7 @@ theorem prefTargetsGood_of_iter (σ : Leaves) (pref : Engine) (hpk : pref.kind =
 theorem backtrack_sound (σ : Leaves) (st : Store) (pref : Engine) :
     (fuel : Nat) → (o : UOp) → (tree : Rel) → (res : Res) → (done : Bool) →
     tree.WF → tree.Truthful σ → o.wfOn tree.columns = true → (o.isProj = true → tree.spineNoDedup) →
-    tree.prefTargetsGood σ pref →
+    tree.prefTargetsGood NodeInv.triv σ pref →
     backtrack st fuel (.u o) tree pref = .ok (res, done) → BTok σ o tree (res.get tree) done
   | 0, o, tree, res, done, _, _, _, _, _, h => by rw [backtrack] at h; cases h
   | fuel+1, o, tree, res, done, hwf, htr, hop, hnd, hpo, h => by
@@ -568,7 +569,7 @@ theorem backtrack_sound (σ : Leaves) (st : Store) (pref : Engine) :
         have htrt : target.Truthful σ := htr
         have hopt : o.wfOn target.columns = true := hop
         have hndt : o.isProj = true → target.spineNoDedup := fun hp => hnd hp
-        have hpo' : (target.engine = pref → pref.kind = .sql → Good σ target) ∧ target.prefTargetsGood σ pref := hpo
+        have hpo' : (target.engine = pref → pref.kind = .sql → Good NodeInv.triv σ target) ∧ target.prefTargetsGood NodeInv.triv σ pref := hpo
         by_cases he : (target.engine == pref) = true
         · simp only [he, if_true] at h
           cases happ : applyOp st fuel (.u o) target {} with
